@@ -11,6 +11,7 @@ def specs_keys(tier):
     s += [(FM, "unit_symbolic_keys", {"nsym": 2, "nkeys": 2, "timeout_ms": t, "noncommutative": True})]
     s += [(FM, "unit_symbolic_keys", {"nsym": a, "nkeys": b, "timeout_ms": t, "given": True}) for a, b in ((2, 2), (3, 2))]
     s += [(FM, "unit_dict_to_blockseries", {"h0_kind": k, "symbolic_keys": sk, "timeout_ms": t}) for k, sk in (("ndarray", False), ("sparse", False), ("sympy", True), ("ndarray", True))]
+    s += [(FM, "unit_dict_keys_validated", {"bad": b, "timeout_ms": t}) for b in ("ragged", "negative", "non-tuple")]
     s += [(FM, "unit_to_scalar_dispatch", {"timeout_ms": t})]
     s += [(FM, "unit_sympy_prologue", {"given": g, "timeout_ms": t}) for g in ("user-order", "none", "foreign")]
     return s
